@@ -16,6 +16,9 @@ func main() {
 		os.Exit(2)
 	}
 	switch os.Args[1] {
+	case "baseline":
+		// govc baseline : writes /verif/baseline/obligations.json (stable obligation names per property)
+		os.Exit(writeBaseline())
 	case "replay":
 		if len(os.Args) < 3 {
 			fmt.Fprintln(os.Stderr, "usage: govc replay <replay-file>")
